@@ -53,7 +53,7 @@ func runHostile(c *run.C, cd *codec.Codec, input []byte, ep int, sizes []int, bu
 		case epParseString:
 			res.err = cd.ParseString(string(input), m.WithRefs())
 		case epParseReader:
-			_, res.err = cd.ParseReader(&mon.ChunkReader{Data: input, Sizes: sizes}, m.WithRefs())
+			_, res.err = cd.ParseReader(&mon.ChunkReader{Data: input, Sizes: sizes, EOFWithData: len(input)%2 == 1}, m.WithRefs())
 		case epWrite:
 			p := cd.NewParser(m.WithRefs())
 			for _, ch := range mon.Chunks(input, sizes) {
@@ -71,7 +71,7 @@ func runHostile(c *run.C, cd *codec.Codec, input []byte, ep int, sizes []int, bu
 			if ep == epBytesDecoder {
 				d = cd.NewBytesDecoder(append([]byte{}, input...), m.WithRefs())
 			} else {
-				d = cd.NewDecoder(&mon.ChunkReader{Data: input, Sizes: sizes}, bufSize, m.WithRefs())
+				d = cd.NewDecoder(&mon.ChunkReader{Data: input, Sizes: sizes, EOFWithData: len(input)%2 == 1}, bufSize, m.WithRefs())
 			}
 			// every successful Next delivers at least one event or consumes
 			// input; bound the loop by the input length.
